@@ -55,6 +55,11 @@ func (p *connipc) Recv() (*Message, error) {
 	if _, err = p.c.Read(one[:]); err != nil {
 		return nil, err
 	}
+	// The IPC mapping puts a message type byte, always 1, in front of
+	// every message; anything else is not an SP message.
+	if one[0] != 1 {
+		return nil, mangos.ErrGarbled
+	}
 	if err = binary.Read(p.c, binary.BigEndian, &sz); err != nil {
 		return nil, err
 	}
